@@ -792,7 +792,11 @@ def setitem(t: SymTensor, index, value):
 
 def _cast_like(v, dt):
     if isinstance(v, Inf):
-        raise Unsupported("writing inf into a tensor (extended reals not modelled here)")
+        # x[mask] = +/-inf: the same treatment as masked_fill / where (A1b: the literal is the constant INF, compared only)
+        if dt != "f":
+            raise Unsupported("writing inf into a non-float tensor")
+        uses_inf()
+        return inf_value(v)
     return cast(v, dt)
 
 
